@@ -224,7 +224,7 @@ func properties() map[string]*Property {
 		Jobs: append(simJobs("ReadStringBytes", "ReadString", "appendRemainderOfString", "unescapeStringContent", "UnescapeStringContent"),
 			hostile("unescapeUnicodeChar", "getu4", "growBytesSliceCapacity", "countWhitespace", "errUnexpectedByteInString")...),
 		Labels: []string{"C06"},
-		Extra:  []string{"spec-lemmas"},
+		Extra:  []string{"spec-lemmas", "bounded-string-content"},
 		Assume: append([]string{
 			"utf8.EncodeRune / utf8.RuneLen / utf16.IsSurrogate / utf16.DecodeRune enter with their exact definitions as assumed contracts (standard library, four small pure functions)",
 			"the string machines are proved in the top-level context (spec state InValue.Str@top, depth 0), which is how ReadString/ReadStringBytes and UnescapeStringContent 'on its own' use them; other contexts are the same sub-automaton and are not re-proved",
@@ -238,7 +238,7 @@ func properties() map[string]*Property {
 		Jobs:   append(hostile(concat(pureFns, numFns, fpFns)...), hostile("growBytesSliceCapacity", "unescapeUnicodeChar")...),
 		Kinds:  map[string]bool{"ensures": true, "inv-init": true, "inv-preserved": true, "requires@call": true},
 		Labels: []string{"C19"},
-		Extra:  []string{"fp-noalloc-scan"},
+		Extra:  []string{"fp-noalloc-scan", "bounded-zero-alloc"},
 		Assume: []string{
 			"ghost allocation counter: incremented at every make / append growth / []byte<->string conversion / interface boxing / fmt.Errorf / escaping new in the functions under contract. A local whose address is taken counts as heap-allocated unless a conservative escape analysis (cmd/rjv/escape.go, mirroring gc's rule) shows that neither it nor a pointer derived from it is stored, returned, boxed, captured or passed to a callee that does so; gc's actual decision and the allocator itself are not modelled (the replay measures testing.AllocsPerRun on the real code)",
 			"internal/fp: ParseJSONFloatPrefix, readFloat, (*decimal).set, atof64exact, eiselLemire64 are proved not to allocate; (*decimal).floatBits and the shifting code below it contain no allocating instruction (SSA scan of the function and its callees: no make / append / conversion / boxing / closure / escaping local; one obligation per function)",
@@ -263,7 +263,7 @@ func properties() map[string]*Property {
 	ps["C04"] = &Property{ID: "C04", Level: "proof",
 		Jobs:   simJobs("ReadFloat64", "fp.ParseJSONFloatPrefix", "fp.readFloat", "fp.(*decimal).set", "countWhitespace"),
 		Labels: []string{"C04"},
-		Extra:  []string{"fp-tables", "fp-equiv", "fp-equiv-loops", "spec-lemmas"},
+		Extra:  []string{"fp-tables", "fp-equiv", "fp-equiv-loops", "spec-lemmas", "bounded-float-differential"},
 		Subset: "(a) tables: every row equals its mathematical definition and the pinned reference; (b) kernels: eiselLemire64 and atof64exact equal strconv's for all arguments; (c) decimal slow path: floatBits, Shift, leftShift, rightShift, prefixIsLessThan, trim, shouldRoundUp, RoundedInteger are lock-step equivalent to strconv's (same results and same memory for equal arguments, loop by loop), and (*decimal).set is lock-step equivalent to strconv's on inputs without '_' and leading '+' (a precondition every call site proves); (d) grammar and offset: ReadFloat64 / ParseJSONFloatPrefix / readFloat succeed (or report only a range error) exactly when the first token is an RFC 8259 number and return the offset just after the literal (simulation against the master transducer), and set accepts every literal readFloat accepted; (e) value: readFloat's (mantissa, exp, neg, trunc) equal the number registers of the specification run (value of the first 19 mantissa digits, digit count, decimal point position, exponent fold); (f) glue: ParseJSONFloatPrefix returns atof64exact's result when the mantissa is exact and that succeeds, else eiselLemire64's when it succeeds and (if truncated) agrees with the result for mantissa+1, else the slow path's (set on the literal's bytes, floatBits), with an error exactly when the slow path reports overflow. NOT covered: that the number registers denote the literal's decimal value (positional notation, by definition) and that this decision procedure rounds correctly given correct kernels (the argument of the Eisel-Lemire paper / strconv.atof64, whose structure (f) mirrors)",
 		Assume: []string{
 			"purity: readFloat, atof64exact, eiselLemire64, (*decimal).set and (*decimal).floatBits are functions of their arguments and the memory reachable from them (they read only constant tables; no store to package-level memory: global store scan), so their results can be named by uninterpreted functions in the glue contract",
